@@ -717,6 +717,90 @@ func simplifyFlow(in []string) []string {
 	return in
 }
 
+// hoistFlow factors what the two arms of a conditional have in common: `if{ P A }else{ P B }`
+// becomes `P if{ A }else{ B }` and `if{ A }else{ A }` becomes `A`.  Conditions carry no actions of
+// their own (their calls are emitted before the `if{`) and are pinned separately by KExpr kernels,
+// so releasing a lock before a two-way return instead of inside both arms, or testing and
+// returning in either order, gives one flow.  One-armed conditionals and loops are left alone.
+type flowNode struct {
+	tok        string      // plain token, or the opening token of a block
+	body, alt  []*flowNode // block content; alt = else arm of an `if{`
+	block, els bool
+}
+
+func parseFlow(toks []string, i int) ([]*flowNode, int, string) {
+	var out []*flowNode
+	for i < len(toks) {
+		t := toks[i]
+		switch {
+		case t == "}" || t == "}else{":
+			return out, i + 1, t
+		case strings.HasSuffix(t, "{"):
+			n := &flowNode{tok: t, block: true}
+			var end string
+			n.body, i, end = parseFlow(toks, i+1)
+			if end == "}else{" {
+				n.els = true
+				n.alt, i, _ = parseFlow(toks, i)
+			}
+			out = append(out, n)
+		default:
+			out = append(out, &flowNode{tok: t})
+			i++
+		}
+	}
+	return out, i, ""
+}
+
+func flowText(ns []*flowNode) []string {
+	var out []string
+	for _, n := range ns {
+		out = append(out, n.tok)
+		if n.block {
+			out = append(out, flowText(n.body)...)
+			if n.els {
+				out = append(out, "}else{")
+				out = append(out, flowText(n.alt)...)
+			}
+			out = append(out, "}")
+		}
+	}
+	return out
+}
+
+func hoistNodes(ns []*flowNode) []*flowNode {
+	var out []*flowNode
+	for _, n := range ns {
+		if !n.block {
+			out = append(out, n)
+			continue
+		}
+		n.body = hoistNodes(n.body)
+		n.alt = hoistNodes(n.alt)
+		if n.tok == "if{" && n.els {
+			same := func(a, b *flowNode) bool {
+				return strings.Join(flowText([]*flowNode{a}), "\x00") == strings.Join(flowText([]*flowNode{b}), "\x00")
+			}
+			k := 0
+			for k < len(n.body) && k < len(n.alt) && same(n.body[k], n.alt[k]) {
+				k++
+			}
+			out = append(out, n.body[:k]...)
+			n.body, n.alt = n.body[k:], n.alt[k:]
+			if len(n.body) == 0 && len(n.alt) == 0 {
+				continue
+			}
+		}
+		out = append(out, n)
+	}
+	return out
+}
+
+func hoistFlow(in []string) []string {
+	ns, _, _ := parseFlow(in, 0)
+	return flowText(hoistNodes(ns))
+}
+
 func genFlows(load func(string) *pkgInfo) (string, error) {
 	var b strings.Builder
 	for _, fs := range flowSpecs {
@@ -727,7 +811,7 @@ func genFlows(load func(string) *pkgInfo) (string, error) {
 		}
 		w := &flowWalker{pi: pi, tail: true}
 		w.block(fd.Body.List)
-		flow := simplifyFlow(w.out)
+		flow := simplifyFlow(hoistFlow(simplifyFlow(w.out)))
 		fmt.Fprintf(&b, "/-- actions of %s in source order -/\ndef %s : List String := [", fs.fn, fs.lean)
 		for i, s := range flow {
 			if i > 0 {
